@@ -46,6 +46,7 @@ fn main() {
         "ucdgen" => tools::ucdgen(&args[2..]),
         "csv" => tools::csv(&args[2..]),
         "threads" => tools::threads(&args[2..]),
+        "stress" => tools::stress(&args[2..]),
         "sizes" => tools::sizes(),
         "c08sweep" => tools::c08sweep(),
         _ => {
